@@ -3,6 +3,7 @@
 mod cmds;
 mod cmds2;
 mod cmds3;
+mod cmds4;
 mod emit;
 mod ilread;
 
@@ -27,6 +28,10 @@ pub fn hex(b: &[u8]) -> String {
 }
 
 static LAST_PANIC: Mutex<Option<String>> = Mutex::new(None);
+
+pub fn take_last_panic() -> String {
+    LAST_PANIC.lock().unwrap().take().unwrap_or_default()
+}
 
 fn main() {
     panic::set_hook(Box::new(|info| {
